@@ -796,3 +796,60 @@ pub fn c01_arity_%(id)s() {
 }
 ''' % dict(id=opid(o), o=o, tier="quick" if o in quick_ops else "thorough")
     return {"c01_op.rs": out}
+
+
+# ------------------------------------------------------------------------------------
+# C11: path splitting on EVERY path of <= 3 characters over {a . \ 1} (85 constant strings: the engine folds each
+# execution; exhaustive for that alphabet and length, no quantifier over longer paths)
+# ------------------------------------------------------------------------------------
+
+def ref_split(s):
+    out, cur, esc = [], "", False
+    for c in s:
+        if esc:
+            cur += c
+            esc = False
+        elif c == "\\":
+            esc = True
+        elif c == ".":
+            out.append(cur)
+            cur = ""
+        else:
+            cur += c
+    if cur:
+        out.append(cur)
+    return out
+
+
+def gen_c11(tier):
+    import itertools
+    out = prelude("c11_data.rs")
+    alpha = ["a", ".", "\\", "1"]
+    paths = [""]
+    for n in (1, 2, 3):
+        paths += ["".join(t) for t in itertools.product(alpha, repeat=n)]
+    extra = ["a.b.c", "a\\.b.c", "a..b", ".a.", "a\\\\.b", "é.€", "a.b\\", "0.-1.x"]
+    group = 15
+    allp = paths + extra
+    for gi in range(0, len(allp), group):
+        grp = allp[gi:gi + group]
+        body = ""
+        for ptxt in grp:
+            exp = ref_split(ptxt)
+            body += "    {\n        let parts = split_with_escape(%s, '.');\n" % rust_str(ptxt)
+            body += '        assert!(parts.len() == %d, "C11: path split into a different number of components");\n' % len(exp)
+            for i, e in enumerate(exp):
+                body += '        assert!(parts[%d] == %s, "C11: path component differs from the reference");\n' % (i, rust_str(e))
+            body += "        std::mem::forget(parts);\n    }\n"
+        out += '''
+//@ harness: c11_split_corpus_%(i)d tier=quick timeout=900 kind=main mem=8
+//@ encodes: op::data::split_with_escape
+//@ bound: paths %(doc)s - part of ALL paths of <= 3 characters over {a . backslash 1} plus 8 longer ones; each is a constant-folded execution (exhaustive for that alphabet and length; no quantifier beyond it)
+#[cfg_attr(kani, kani::proof)]
+#[cfg_attr(kani, kani::unwind(12))]
+#[cfg_attr(kani, kani::stub(std::fmt::format, stub_format))]
+#[cfg_attr(verif_replay, test)]
+pub fn c11_split_corpus_%(i)d() {
+%(body)s}
+''' % dict(i=gi // group, doc=" ".join(repr(x) for x in grp)[:300].replace("\n", " "), body=body)
+    return {"c11_data.rs": out}
